@@ -39,6 +39,7 @@ def merge_case(draw, max_probes=4, exclude_f13=True, max_nc=6, max_ns=25, big_te
     probes = []
     first = None
     excluded = 0
+    wm_kind = draw(st.sampled_from([None, None, None, 'lower', 'upper', 'diag', 'mixed']))
     for i in range(k):
         big = big_templates and draw(st.integers(0, 7)) == 0
         spec = draw(D.dataset_spec(merge_ready=True, dense=True, naming='ks', raw=False,
@@ -52,6 +53,8 @@ def merge_case(draw, max_probes=4, exclude_f13=True, max_nc=6, max_ns=25, big_te
             spec['templates']['dtype'] = first['templates']['dtype']
         # the model behind the merged dataset squeezes: keep every dimension >= 2
         spec['wmi_file'] = bool(spec['wm'] and draw(st.booleans()))
+        spec['wm_kind'] = wm_kind if wm_kind != 'mixed' else \
+            draw(st.sampled_from([None, 'lower', 'upper', 'diag']))
         spec['tsv'] = {fn: draw(st.booleans()) for fn in TSV_FILES}
         spec['tsv_salt'] = draw(st.integers(0, 5))
         if exclude_f13 and probes and needs_f13_shift(probes[-1]['pos'], spec['pos']):
